@@ -6,6 +6,17 @@
      bat dec <par> hex;hex;..        decode_batch: one raw-style token per buffer of the batch
      raw <hex | ->                   the same for an arbitrary buffer
      enc <ver> <typ> <len,..> <id,..> per (len, id): "<hdr_encode>|=|<write_header or =>"
+     stl <cfg> <hist> <hex;hex;..>   a client (cfg = v<version>[t = with a timeout]) taken through the
+                                     connection history hist ("-" or conn,first,gsv:<cur>:<max>,gsverr,spv,
+                                     xchg,req,sentclose,close,fail,eof,recv:<hex>): "h=<what client_observe
+                                     lists for the history, comma separated>" then per header
+                                     "<client_read_header>@<version held>", or "-" if nothing reads
+     std <cfg> <hist> <dl> <wlo> <whi> <len,..> <id,..>   the same client: "v<version held>c<closed>" then
+                                     client_read_header (deadline settable iff dl = 1) for every first-two-bytes
+                                     value in [wlo, whi] x lens x ids
+     stw <cfg> <hist> <ver> <tlo> <thi> <len,..> <id,..>   the same client: client_write_header for
+                                     Header{ver, typ, payloadLen, id}, typ in [tlo, thi] x lens x ids (hex)
+   ("!nh" after a stl token: client_offers is false - the message is not handed to a handler)
    decoded headers print as ver.typ.len.id, rejection/refusal as E, bytes as hex *)
 open Model
 
@@ -40,6 +51,23 @@ let hex_of l = String.concat "" (List.map (fun b -> Printf.sprintf "%02x" (int_o
 let bytes_of_hex s =
   let n = String.length s / 2 in
   List.init n (fun i -> byte_n.(int_of_string ("0x" ^ String.sub s (2 * i) 2)))
+
+
+let parse_cfg cfg =
+  let t = String.length cfg > 0 && cfg.[String.length cfg - 1] = 't' in
+  let v = String.sub cfg 1 (String.length cfg - 1 - (if t then 1 else 0)) in
+  c_new (n_of_int (int_of_string v)) t
+
+let parse_event e =
+  match String.split_on_char ':' e with
+  | ["conn"] -> EvConn | ["first"] -> EvFirst
+  | ["gsv"; c; m] -> EvGsv (n_of_int (int_of_string c), n_of_int (int_of_string m))
+  | ["gsverr"] -> EvGsvErr | ["spv"] -> EvSpv | ["xchg"] -> EvXchg | ["req"] -> EvReq
+  | ["sentclose"] -> EvSentClose | ["close"] -> EvClose | ["fail"] -> EvFail | ["eof"] -> EvEof
+  | ["recv"; h] -> EvRecv (bytes_of_hex h)
+  | _ -> failwith ("bad event " ^ e)
+
+let parse_hist h = if h = "-" then [] else List.map parse_event (String.split_on_char ',' h)
 
 let () =
   let out = Buffer.create 4096 in
@@ -122,6 +150,47 @@ let () =
              let a = res_string u and b = res_string r in
              Buffer.add_string out a; Buffer.add_char out '|';
              if a = b then Buffer.add_char out '=' else Buffer.add_string out b) (decode_batch bufs)
+       | ["stl"; cfg; hist; items] ->
+         let c0 = parse_cfg cfg and evs = parse_hist hist in
+         let st = client_run c0 evs in
+         Buffer.add_string out "h=";
+         Buffer.add_string out (String.concat "," (List.map res_string (client_observe c0 evs)));
+         List.iter (fun h ->
+             Buffer.add_char out ' ';
+             if reading st then begin
+               (match client_read_header st true (bytes_of_hex h) with
+                | HErr _ -> Buffer.add_char out 'E'
+                | HOk hd as r -> Buffer.add_string out (res_string r);
+                  Buffer.add_char out '@'; Buffer.add_string out (string_of_int (int_of_n st.c_ver));
+                  if not (client_offers st hd) then Buffer.add_string out "!nh")
+             end else Buffer.add_char out '-') (String.split_on_char ';' items)
+       | ["std"; cfg; hist; dl; wlo; whi; lens; ids] ->
+         let st = client_run (parse_cfg cfg) (parse_hist hist) in
+         let dl = dl = "1" in
+         let lens = csv lens and ids = csv ids in
+         Buffer.add_char out 'v'; Buffer.add_string out (string_of_int (int_of_n st.c_ver));
+         Buffer.add_string out (if st.c_closed then "c1" else "c0");
+         for w = int_of_string wlo to int_of_string whi do
+           List.iter (fun l ->
+               let lb = b32 l in
+               List.iter (fun id ->
+                   Buffer.add_char out ' ';
+                   let bytes = byte_n.(w lsr 8) :: byte_n.(w land 255) :: (lb @ b32 id) in
+                   Buffer.add_string out (res_string (client_read_header st dl bytes))) ids) lens
+         done
+       | ["stw"; cfg; hist; ver; tlo; thi; lens; ids] ->
+         let st = client_run (parse_cfg cfg) (parse_hist hist) in
+         let ver = n_of_int (int_of_string ver) in
+         let lens = csv lens and ids = csv ids in
+         let first = ref true in
+         for typ = int_of_string tlo to int_of_string thi do
+           List.iter (fun l ->
+               List.iter (fun id ->
+                   if not !first then Buffer.add_char out ' ';
+                   first := false;
+                   let h = { h_ver = ver; h_typ = n_of_int typ; h_len = n_of_int l; h_id = n_of_int id } in
+                   Buffer.add_string out (hex_of (client_write_header st h))) ids) lens
+         done
        | ["raw"; h] ->
          decode_both out (if h = "-" then [] else bytes_of_hex h)
        | ["enc"; ver; typ; lens; ids] ->
